@@ -14,13 +14,14 @@ LEVEL = 'model_checking'
 
 
 class Harness:
-    def __init__(self, props, n1max, n2max, earlier, name):
+    def __init__(self, props, n1max, n2max, earlier, name, exact=False, kinds=None):
         self.I = get_interp()
+        self.exact, self.kinds = exact, kinds
         self.props, self.n1max, self.n2max, self.earlier, self.name = props, n1max, n2max, earlier, name
 
     def run_path(self, ctx):
         c = ctx
-        w = SyncWorld(self.I, ctx, 3, (1,), self.props)
+        w = SyncWorld(self.I, ctx, 3, (1,), self.props, **({'max_str': 64} if self.kinds else {}))
         # common synced start: the task exists everywhere
         w.do_commit(0, 1, allow_delete=False)          # only 'create' is possible on an empty replica
         for r in (0, 1, 2):
@@ -30,8 +31,9 @@ class Harness:
         if n0:
             w.do_commit(0, n0)
             w.do_sync(0)
-        n1 = 1 + c.choose(self.n1max, 'n1')
-        n2 = 1 + c.choose(self.n2max, 'n2')
+        n1 = self.n1max if self.exact else 1 + c.choose(self.n1max, 'n1')
+        n2 = self.n2max if self.exact else 1 + c.choose(self.n2max, 'n2')
+        w.op_kinds = self.kinds
         w.do_commit(1, n1)
         w.do_commit(2, n2)
         # serial reference world: same replicas, same server content, syncs one after the other
@@ -45,7 +47,11 @@ class Harness:
         futs = [w.sync_future(w.dbs[1], cells[0]), w.sync_future(w.dbs[2], cells[1])]
         w.server.concurrent = True
         nreq0 = len(w.server.requests)
-        res = sched.run(futs, 'race')
+        try:
+            res = sched.run(futs, 'race')
+        except Panic:
+            w.history.append({'race': [1, 2], 'schedule': [1 + t for t, _ in sched.trace]})
+            raise
         w.history.append({'race': [1, 2], 'schedule': [1 + t for t, _ in sched.trace]})
         w.server.concurrent = False
         for i, r in enumerate(res):
@@ -180,10 +186,14 @@ def required_covers(tier):
 def configs(tier):
     if tier == 'quick':
         return [dict(name='race2+earlier-P1', factory=lambda: Harness(('p',), 2, 1, 1, 'q'),
-                     bounds='3 replicas (1 synced earlier, 2 racing), racer A carries 1-2 ops, racer B 1 op, 0-1 earlier unseen op, 1 task, 1 property; every interleaving of the racers\' server requests (sleep sets over commuting reads)')]
+                     bounds='3 replicas (1 synced earlier, 2 racing), racer A carries 1-2 ops, racer B 1 op, 0-1 earlier unseen op, 1 task, 1 property; every interleaving of the racers\' server requests (sleep sets over commuting reads)'),
+                dict(name='race2-P2-2x2-set', factory=lambda: Harness(('p', 'q'), 2, 2, 0, 'q22', exact=True, kinds=('set',)),
+                     bounds='2 racing replicas carrying exactly 2 property updates each on 1 task with 2 properties (versions mixing conflicting and unrelated operations), values of at most 64 bytes so that each sync sends one version; every interleaving')]
     return [dict(name='race2+earlier-P1-sym', factory=lambda: Harness(('p',), 2, 2, 1, 't1'),
                  bounds='3 replicas, racers carry 1-2 ops each, 0-1 earlier unseen op, 1 task, 1 property; every interleaving',
                  time_limit_s=3300),
+            dict(name='race2-P2-2x2', factory=lambda: Harness(('p', 'q'), 2, 2, 0, 't22'),
+                 bounds='2 racing replicas carrying 1-2 ops each (all kinds), 1 task, 2 properties; every interleaving', time_limit_s=3300),
             dict(name='race2+earlier-P2', factory=lambda: Harness(('p', 'q'), 2, 1, 1, 't2'),
                  bounds='3 replicas, racer A 1-2 ops, racer B 1 op, 0-1 earlier unseen op, 1 task, 2 properties; every interleaving',
                  time_limit_s=3300)]
